@@ -190,7 +190,7 @@ def key_of(job):
     return (job["g"], job["rule"], tuple(job["inp"]), tuple(job["pre"]), tuple(job["post"]))
 
 
-def run_generic(ctx, tag, grams, modes, compare, emit="core", ast="opt", with_pest=True, profile="dev", famname=None):
+def run_generic(ctx, tag, grams, modes, compare, emit="core", ast="opt", with_pest=True, profile="dev", famname=None, use_known=True):
     """compare(rec, job, obs, gram) -> list of (field, expected, observed).  Applies the known-findings policy."""
     rows, corpus = model_and_impl(ctx, tag, grams, modes, emit=emit, ast=ast, with_pest=with_pest, profile=profile, famname=famname)
     mism = []
@@ -208,10 +208,13 @@ def run_generic(ctx, tag, grams, modes, compare, emit="core", ast="opt", with_pe
     if mism:
         known = Known(ctx.prop)
         explained = set()
-        for dev in known.deviations():
+        for dev in (known.deviations() if use_known else []):
             gids = sorted({m[1]["g"] for m in mism})
             sub = [g for g in grams if g["id"] in gids]
-            drows, _ = model_and_impl(ctx, tag + "_dev", sub, modes, emit=emit, ast=ast, dev=dev, need_impl=False)
+            if dev.startswith("ast_"):      # the deviation is "the other AST" (pest_optimizer = false translates the source AST)
+                drows, _ = model_and_impl(ctx, tag + "_dev", sub, modes, emit=emit, ast=dev[4:], dev="", need_impl=False)
+            else:
+                drows, _ = model_and_impl(ctx, tag + "_dev", sub, modes, emit=emit, ast=ast, dev=dev, need_impl=False)
             dmap = {key_of(j): r for r, j, _, _ in drows}
             for i, (rec, job, obs, gram, diffs) in enumerate(mism):
                 if i in explained:
@@ -694,8 +697,20 @@ def setup2():
         print("setup: %s %d shards (%d grammars) %s  [%.0fs]" % (prop, len(shards), len(grams), "ok" if binp else "COMPILE ERRORS in %s" % sorted(errs), time.time() - t0))
         if prop == "C09":
             famgen.build_family(shards, "nodbg")
-    for fn in EXTRA_SETUP:
-        fn()
+    # remaining checks generate their own crates: warm them by building what they need (tools + families) once
+    import textchk
+    textchk.textrun_bin()
+    p, _ = build_bin("genrun")
+    if p.returncode != 0:
+        raise ToolError("genrun build failed")
+    for prop in ("C15", "C11", "C16", "C17", "C18", "C19", "C20"):
+        t1 = time.time()
+        os.environ["VERIF_SETUP_ONLY"] = "1"
+        try:
+            rc = CHECKS[prop]("quick", int(os.environ.get("VERIF_SEED", "1")))
+        finally:
+            os.environ.pop("VERIF_SETUP_ONLY", None)
+        print("setup: %s warmed (rc=%s) [%.0fs]" % (prop, rc, time.time() - t1))
     print("setup done in %.0fs" % (time.time() - t0))
     return 0
 
@@ -760,4 +775,4 @@ def _text(name):
     return f
 
 
-CHECKS = {"C19": _text("check_C19"), "C11": _text("check_C11"), "C15": _text("check_C15"), "C14": _text("check_C14"), "C12": _text("check_C12"), "C13": _text("check_C13"), "C05": check_C05, "C06": check_C06, "C07": check_C07, "C01": check_C01, "C02": check_C02, "C03": check_C03, "C04": check_C04, "C08": check_C08, "C09": check_C09, "C10": check_C10}
+CHECKS = {"C20": _text("check_C20"), "C18": _text("check_C18"), "C17": _text("check_C17"), "C16": _text("check_C16"), "C19": _text("check_C19"), "C11": _text("check_C11"), "C15": _text("check_C15"), "C14": _text("check_C14"), "C12": _text("check_C12"), "C13": _text("check_C13"), "C05": check_C05, "C06": check_C06, "C07": check_C07, "C01": check_C01, "C02": check_C02, "C03": check_C03, "C04": check_C04, "C08": check_C08, "C09": check_C09, "C10": check_C10}
